@@ -73,7 +73,8 @@ type sys struct {
 	timers  []*ctl.Actor
 	refs    []*keyed.KeyedRef[uint64, uint64]
 	refKeys []uint64
-	refLive []bool // the reference is still counted in rc.refs (statistics and generation only)
+	refLive []bool      // the reference is still counted in rc.refs (statistics and generation only)
+	rcFree  func() bool // keyed.KeyedRefCount.VerifRcMtxFree (verif_on.go), nil if /repo does not have it yet
 	rels    []*ctl.Actor
 	ctorN   map[uint64]uint64
 	cbmu    sync.Mutex
@@ -135,6 +136,14 @@ func newSys(w *hist.W, cfg []uint64) *sys {
 	}
 	if s.variant {
 		s.rc = keyed.NewKeyedRefCount(ctor, opts...)
+		// the probe comes with gate 5 (notes/keyed_site5_hook.patch); looked up dynamically so that the harness also
+		// builds against a /repo that has neither (gate 5 is then never reached and nothing parks there)
+		if p, ok := any(s.rc).(interface{ VerifRcMtxFree() bool }); ok {
+			s.rcFree = p.VerifRcMtxFree
+			w.Count("hook.rc_mtx_probe_available", 1)
+		} else {
+			w.Count("hook.rc_mtx_probe_missing", 1)
+		}
 	} else {
 		s.k = keyed.NewKeyed(ctor, opts...)
 	}
@@ -159,7 +168,7 @@ func newSys(w *hist.W, cfg []uint64) *sys {
 				// Keyed.RemoveKey reached from a Release call.  The unchanged code gets here inside the rc.mtx section
 				// (never park a goroutine that holds a sync.Mutex); a Release that has already let go of rc.mtx is
 				// parked: the window between the reference bookkeeping and the removal is a schedule point.
-				return s.variant && s.rc.VerifRcMtxFree()
+				return s.variant && s.rcFree != nil && s.rcFree()
 			}
 			return site == 4
 		}
